@@ -68,7 +68,11 @@ public:
     using result_type = typename std::conditional<Bits == 64, std::uint64_t, std::uint32_t>::type;
 
     static constexpr result_type min() { return 0; }
-    static constexpr result_type max() { return static_cast<result_type>(~result_type(0)); }
+    static constexpr result_type max()
+    {
+        return (Bits >= 8 * sizeof(result_type)) ? static_cast<result_type>(~result_type(0))
+                                                  : static_cast<result_type>((std::uint64_t(1) << (Bits % 64)) - 1);
+    }
 
     ScriptEngine() = default;
     explicit ScriptEngine(std::uint64_t stream) : stream_(stream) {}
@@ -88,7 +92,7 @@ public:
             c->last_raw = raw;
             c->last_stream = stream_;
         }
-        return static_cast<result_type>(Bits == 64 ? raw : (raw >> 32));
+        return static_cast<result_type>(Bits == 64 ? raw : (raw >> (64 - Bits % 64)));
     }
 
     void discard(unsigned long long n)
